@@ -1,0 +1,11 @@
+//go:build verif
+
+package fs
+
+import ocispec "github.com/opencontainers/image-spec/specs-go/v1"
+
+// VerifNeighboringLayers exposes the selection of the layers Mount pre-resolves
+// to the C20 correspondence harness.
+func VerifNeighboringLayers(manifest ocispec.Manifest, target ocispec.Descriptor) []ocispec.Descriptor {
+	return neighboringLayers(manifest, target)
+}
